@@ -2,6 +2,7 @@
 import ast
 import re
 
+from ..match import facts, Q
 from ..srcmodel import attr_chain, call_name, unparse, norm_text, walk_no_nested
 from ..cfg import cfg_of
 from ..dataflow import Origins
@@ -322,8 +323,9 @@ def p1_pairing(run):
                  if attr_chain(c.func) == "self." + fn]
         ok = bool(nodes)
         for nd in nodes:
-            gs = {(unparse(e), p) for e, p, _ in acfg.guards(nd.id)}
-            ok = ok and any(("binding == %s" % b) in g and p for g, p in gs)
+            gs = facts(acfg, nd.id)
+            ok = ok and any(Q("binding == %s" % b)[0] in g and p
+                            for g, p in gs)
         run.check(ok, "P1", "%s::%s->%s" % (ab.qual, b, fn),
                   "encoder selected under `binding == %s`" % b,
                   "%s is not (only) selected for %s" % (fn, b), ab.loc())
@@ -332,8 +334,8 @@ def p1_pairing(run):
         for nd in ucfg.by_kind("stmt"):
             s = nd.ast
             if isinstance(s, ast.Assign) and unparse(s.targets[0]) == "xmlstr":
-                gs = {(unparse(e), p) for e, p, _ in ucfg.guards(nd.id)}
-                if ("binding == %s" % b, True) in gs:
+                gs = facts(ucfg, nd.id)
+                if Q("binding == %s" % b) in gs:
                     hits.append(unparse(s.value))
         run.check(hits == [expr], "P1", "%s::%s" % (un.qual, b),
                   "decoder is %s" % expr,
@@ -455,8 +457,8 @@ def s1_soap(run):
     ok = len(rets) == 1 and unparse(rets[0].ast.value) == \
         "ElementTree.tostring(saml_part, encoding='UTF-8')"
     if ok:
-        gs = {(unparse(e), p) for e, p, _ in cfg.guards(rets[0].id)}
-        ok = ("saml_part.tag in expected_tags", True) in gs
+        gs = facts(cfg, rets[0].id)
+        ok = Q("saml_part.tag in expected_tags", True) in gs
     run.check(ok, "S1", ps.qual + "::expected-tag",
               "returned only under `saml_part.tag in expected_tags`",
               "the Body child is returned without the expected-tag check",
